@@ -9,7 +9,14 @@ ordinary corpus cases (corpus/xmlload/fixed-f05*.xml) that must load or fail cle
 Known non-well-formed outcomes (the loader has no validity gate on the structure / sets / indexes it is given) are classified by
 KNOWN_NONWF: a non-WF load of a MUTATED document is a known finding when its set of failing clauses CONTAINS the clause of a
 listed id (first match in list order = fixed priority), else the catch-all F60; the id is always printed in the hit text.
-A non-WF load of an UNMUTATED valid document (or of its re-import / dup) is always a violation."""
+A non-WF load of an UNMUTATED valid document (or of its re-import / dup) is always a violation.
+
+Distances-list class (C06-r2, see harness/h_xmlload.c): every harness process first enumerates EVERY subset of dropped elements in
+documents with k = 1..5 <distances2>/<distances2hetero> elements (62 patterns, realised by retargeting <indexes> to non-existing
+objects), then filter-driven drops (type filter KEEP_NONE on a matrix's object type); ~7 % of the random cases are of the class too.
+The harness checks the surviving list against an oracle recomputed from the document (order, names, objects, values) and probes the
+list links through the public API (append / remove first / remove last / remove all).  The pointer-level loop itself is proved:
+Hw.Props.C06.C06_distances_refresh_links.  Coverage counters: distribution keys `distdrop.*`."""
 import os, re, shutil, hashlib, glob
 from concurrent.futures import ThreadPoolExecutor
 from common import *
@@ -66,6 +73,16 @@ def classify_nonwf(verdict_values, mutated=True):
     if not _switch("F60"):
         return "F60", "other", sorted(toks)
     return None
+
+
+TYPE_NAMES = ["Machine", "Package", "Die", "Core", "PU", "L1Cache", "L2Cache", "L3Cache", "L4Cache", "L5Cache", "L1iCache", "L2iCache",
+              "L3iCache", "Group", "NUMANode", "MemCache", "Bridge", "PCIDev", "OSDev", "Misc"]
+DD_ORACLE_ENV = {"VERIF_DISTORACLE": "1"}
+
+
+def none_types(fl):
+    """names of the types given a KEEP_NONE filter by the harness (bit 20 + type of the flags word)"""
+    return [n for i, n in enumerate(TYPE_NAMES) if (int(fl) >> (20 + i)) & 1]
 
 
 KEEP_ENV = ("HWLOC_HIDE_ERRORS", "HWLOC_LIBXML", "HWLOC_DONT_ADD_VERSION_INFO")
@@ -188,15 +205,16 @@ def show_xml(data):
     return "(python bytes literal) " + repr(data) + "\n"
 
 
-def describe(libxml, mode, flags, u, data, report, what, size=None):
+def describe(libxml, mode, flags, u, data, report, what, size=None, env=None):
     fl = int(flags)
     return ("# %s\n# back end: HWLOC_LIBXML=%d (%s)   mode: %s (%s)   topology flags: 0x%x   filters: %s   userdata import callback: %s%s\n"
-            "# replay: HWLOC_LIBXML=%d xmlload replay <file> <dump> %s %d %s\n# ---- minimal XML (%d bytes) ----\n%s# ---- report ----\n%s\n" % (
+            "# replay: %sHWLOC_LIBXML=%d xmlload replay <file> <dump> %s %d %s\n# ---- minimal XML (%d bytes) ----\n%s# ---- report ----\n%s\n" % (
                 what, libxml, "libxml2" if libxml else "nolibxml", mode,
                 {"B": "hwloc_topology_set_xmlbuffer+load", "F": "hwloc_topology_set_xml+load", "D": "hwloc_topology_diff_load_xmlbuffer"}.get(mode, "?"),
-                fl & 0xffff, ("default", "all KEEP_ALL", "io KEEP_IMPORTANT", "?")[(fl >> 16) & 3], "yes" if u else "no",
+                fl & 0xffff, ("default", "all KEEP_ALL", "io KEEP_IMPORTANT", "?")[(fl >> 16) & 3] +
+                ("".join(", then %s KEEP_NONE" % n for n in none_types(fl))), "yes" if u else "no",
                 "" if size is None else "   size argument: %d" % size,
-                libxml, mode, fl, "u" if u else "-", len(data), show_xml(data),
+                "".join("%s=%s " % kv for kv in sorted((env or {}).items())), libxml, mode, fl, "u" if u else "-", len(data), show_xml(data),
                 "\n".join("# " + l for l in report.splitlines()[:25])))
 
 
@@ -212,6 +230,8 @@ def one_run(binp, workdir, idx, seed, n, sources):
     if os.path.exists(dump) and os.path.getsize(dump):
         res["verdicts"] = verdicts(dump, os.path.join(d, "m.out"))
     cases = [l.split() for l in plan if l and not l.startswith("#")]
+    # cases of the distances-list class whose document is pristine apart from the retargeted <indexes>: replayed with the oracle
+    res["dd_oracle"] = set(l.split()[2] for l in plan if l.startswith("# distdrop-plan ") and "mut" not in l.split()[-1])
     if res["kind"] and cases:
         t = cases[-1]
         f = os.path.join(d, t[0] + ".xml")
@@ -274,7 +294,7 @@ def run_engine(tier, seed, sizes=None):
                 stats["watchdog-unreproduced"] = stats.get("watchdog-unreproduced", 0) + 1
                 return
             what += " (NOT reproduced by a single replay of the case)"
-        problems.append({"what": what, "seed": seed_, "replay": describe(libxml, mode, flags, u, small, report, what)})
+        problems.append({"what": what, "seed": seed_, "replay": describe(libxml, mode, flags, u, small, report, what, env=extra_env)})
 
     def known_hit(cls, where):
         fid, clause, toks = cls
@@ -290,11 +310,17 @@ def run_engine(tier, seed, sizes=None):
     for f, name, mode, u in corpus_cases():
         data = open(f, "rb").read()
         for lx in (0, 1):
-            kind, out, v, status = replay_bytes(binp, workdir, data, lx, mode, 1 << 16, u, "corpus")
+            xenv = DD_ORACLE_ENV if name.startswith("distdrop-") else None   # distances-list class: hand-written pristine documents
+            kind, out, v, status = replay_bytes(binp, workdir, data, lx, mode, 1 << 16, u, "corpus", extra_env=xenv)
             stats["corpus"] += 1
             nw = nonwf_kind(v)
+            if xenv:
+                m = re.search(r"^distances oracle: (\S+)", out, flags=re.M)
+                stats["distdrop.corpus." + (m.group(1) if m else "no-load")] = stats.get("distdrop.corpus." + (m.group(1) if m else "no-load"), 0) + 1
+                if not kind and (status != "loaded" or not m or m.group(1) == "no"):
+                    kind = "check:distdrop corpus document did not load / oracle had no opinion"
             if kind:
-                add_problem("corpus input %s: %s" % (os.path.basename(f), kind), 0, lx, mode, 1 << 16, u, data, kind, out)
+                add_problem("corpus input %s: %s" % (os.path.basename(f), kind), 0, lx, mode, 1 << 16, u, data, kind, out, extra_env=xenv)
             elif nw:
                 cls = classify_nonwf(v.values())
                 if cls:
@@ -308,6 +334,7 @@ def run_engine(tier, seed, sizes=None):
     with ThreadPoolExecutor(min(NCPU, 8)) as ex:
         results = list(ex.map(lambda a: one_run(binp, workdir, a[0], a[1], n, sources), enumerate(seeds)))
     distinct = set()
+    dd_patterns = {0: set(), 1: set()}
     for r in results:
         for l in r["plan"]:
             t = l.split()
@@ -320,6 +347,25 @@ def run_engine(tier, seed, sizes=None):
                 distinct.add((t[1], t[5], r["libxml"]))
             if status == "loaded" and len(samples) < 6 and t[1] != "D":
                 samples.append("libxml=%d mode=%s flags=%s u=%s len=%s hash=%s -> loaded, %s" % (r["libxml"], t[1], t[2], t[3], t[4], t[5], r["verdicts"].get(t[0])))
+        for l in r["plan"]:
+            if l.startswith("# distdrop "):
+                f = dict(x.split("=", 1) for x in l.split()[3:] if "=" in x)
+                pat = f.get("drop", "")
+                stats["distdrop.cases"] = stats.get("distdrop.cases", 0) + 1
+                stats["distdrop.mech." + f.get("mech", "?")] = stats.get("distdrop.mech." + f.get("mech", "?"), 0) + 1
+                if "11" in pat:
+                    stats["distdrop.two_consecutive_dropped"] = stats.get("distdrop.two_consecutive_dropped", 0) + 1
+                if pat and "0" not in pat:
+                    stats["distdrop.all_dropped"] = stats.get("distdrop.all_dropped", 0) + 1
+                if 1 <= len(pat) <= 5:
+                    dd_patterns[r["libxml"]].add(pat)
+            elif l.startswith("# hugegp-skipped "):
+                stats["wf_oracle_skipped_huge_gp_index"] = stats.get("wf_oracle_skipped_huge_gp_index", 0) + int(l.split()[2])
+            elif l.startswith("# distoracle "):
+                t = l.split()
+                stats["distdrop.oracle_applied"] = stats.get("distdrop.oracle_applied", 0) + int(t[3])
+                stats["distdrop.oracle_noopinion"] = stats.get("distdrop.oracle_noopinion", 0) + int(t[5])
+                stats["distdrop.list_probes"] = stats.get("distdrop.list_probes", 0) + int(t[7])
         nv = sum(1 for v in r["verdicts"].values())
         stats["dumps_judged"] = stats.get("dumps_judged", 0) + nv
         if any(l.split()[-1] == "skipped-F71" for l in r["plan"] if l and not l.startswith("#")):
@@ -330,6 +376,14 @@ def run_engine(tier, seed, sizes=None):
             if l.startswith("# f72-skipped ") and int(l.split()[2]) > 0:
                 stats["known-F72"] = stats.get("known-F72", 0) + int(l.split()[2])
                 msg = "F72: XML import keeps a non-Machine root; hwloc_topology_export_synthetic() asserts on a NUMANode root (synthetic export skipped for non-Machine roots)"
+                if msg not in known_hits:
+                    known_hits.append(msg)
+        for l in r["plan"]:
+            if l.startswith("# memcache-leaf-skipped ") and int(l.split()[2]) > 0:
+                stats["known-memcache-leaf"] = stats.get("known-memcache-leaf", 0) + int(l.split()[2])
+                msg = ("F05w (crash consequence 'memcache-leaf', new): XML import accepts a memory child chain without NUMANode (childless MemCache); "
+                       "hwloc_topology_export_synthetic() asserts (topology-synthetic.c:1523 assert(numanode)); synthetic export skipped for that class, "
+                       "switch VERIF_INCLUDE_F05W or VERIF_INCLUDE_MEMCACHE_LEAF; minimal input corpus/xmlload/open-memcache-leaf.B.xml")
                 if msg not in known_hits:
                     known_hits.append(msg)
         for l in r["plan"]:
@@ -347,15 +401,19 @@ def run_engine(tier, seed, sizes=None):
                 continue
             add_problem(("UNMUTATED valid document loads non-WF: " if t[0] in unmut else "loaded topology is not well-formed: ") +
                         ";".join("%s: %s" % kv for kv in sorted(bad.items()))[:300],
-                        r["seed"], r["libxml"], t[1], int(t[2]), t[3] == "1", data, nw, str(bad))
+                        r["seed"], r["libxml"], t[1], int(t[2]), t[3] == "1", data, nw, str(bad),
+                        extra_env=DD_ORACLE_ENV if t[0] in r["dd_oracle"] else None)
         if r["kind"]:
             if r["culprit"]:
                 t, data = r["culprit"]
-                add_problem("harness process failed: " + r["kind"], r["seed"], r["libxml"], t[1], int(t[2]), t[3] == "1", data, r["kind"], r["out"])
+                add_problem("harness process failed: " + r["kind"], r["seed"], r["libxml"], t[1], int(t[2]), t[3] == "1", data, r["kind"], r["out"],
+                            extra_env=DD_ORACLE_ENV if t[0] in r["dd_oracle"] else None)
             elif r["kind"] not in seen_kinds:
                 seen_kinds.add(r["kind"])
                 problems.append({"what": "harness process failed outside a case: " + r["kind"], "seed": r["seed"],
                                  "replay": "# HWLOC_LIBXML=%d VERIF_SEED=%d xmlload gen %d\n# %s\n" % (r["libxml"], r["seed"], n, r["out"][-3000:].replace("\n", "\n# "))})
+    for lx in (0, 1):
+        stats["distdrop.patterns_le5_covered_of_62.%s" % ("libxml" if lx else "nolibxml")] = len(dd_patterns[lx])
     shutil.rmtree(workdir, ignore_errors=True)
     ev = sum(v for k, v in stats.items() if k in ("loaded", "failed", "crashed"))
     return {"evaluations": ev + stats["corpus"], "distinct_nontrivial": len(distinct), "distribution": stats, "sources": nsrc,
@@ -365,4 +423,7 @@ def run_engine(tier, seed, sizes=None):
                     "truncation, bytes; 5% random bytes, 5% unmutated), loaded by set_xmlbuffer (70%), set_xml (15%) or diff_load_xmlbuffer (15%) "
                     "with random topology flags / type filters / userdata import callback, both XML back ends; evaluation = a case that was "
                     "loaded or cleanly refused (only the open classes F70 (dup skipped) and F71 (document skipped) are excluded); non-trivial distinct = distinct (mode, content "
-                    "hash, back end); every loaded topology + its XML re-import + its dup judged by wfCheck"}
+                    "hash, back end); every loaded topology + its XML re-import + its dup judged by wfCheck.  Distances-list class: per process "
+                    "62 + 16 prologue cases (every subset of dropped <distances2*> elements of 1..5, by <indexes> retargeting; KEEP_NONE type "
+                    "filters) + 7% of the random cases, surviving list checked against the document-derived oracle, list links probed "
+                    "through add/release_remove/remove on every loaded topology"}
